@@ -67,6 +67,7 @@ func checkC09(p *Prog, r *Report) {
 	}
 	p.walkSortedRule(r, "E5.walk-sorted")
 	p.hardlinkMarkerRule(r, "E9.hardlink-marker-protocol")
+	p.memoEveryHashRule(r, "E5.every-hash-memoised")
 	// the walk callback
 	var cb *ssa.Function
 	for _, ci := range callsInFn(hash, walkMode) {
@@ -407,6 +408,10 @@ func (p *Prog) kindTagged(hash, fileHash *ssa.Function) bool {
 // walkSortedRule: the directory hash streams entry contents in walk order, and several listings (glob, cache archives,
 // BUILD file discovery) are emitted in walk order: fs.WalkMode must leave godirwalk's sorting on.
 func (p *Prog) walkSortedRule(r *Report, rule string) {
+	var errCb token.Pos
+	defer func() {
+		r.check(!errCb.IsValid(), strings.Replace(rule, "walk-sorted", "walk-errors-abort", 1), "a directory walk stops at the first error", p.pos(errCb), "fs.WalkMode", "godirwalk.Options.ErrorCallback is not set, so an entry that cannot be read aborts the walk", "the shared directory walker installs an ErrorCallback that skips entries it cannot read: the directory hash relies on such an error aborting the walk, so an unreadable file or sub-directory is silently left out and two trees that differ only there hash the same")
+	}()
 	n, bad := 0, 0
 	var site token.Pos
 	for _, f := range p.Funcs("fs") {
@@ -425,6 +430,15 @@ func (p *Prog) walkSortedRule(r *Report, rule string) {
 				if refs := a.Referrers(); refs != nil {
 					for _, rf := range *refs {
 						fa, ok := rf.(*ssa.FieldAddr)
+						if ok && strings.HasSuffix(fieldKey(fa), "Options.ErrorCallback") {
+							if frefs := fa.Referrers(); frefs != nil {
+								for _, u := range *frefs {
+									if st, ok := u.(*ssa.Store); ok && !isNilConst(st.Val) {
+										errCb = st.Pos()
+									}
+								}
+							}
+						}
 						if !ok || !strings.HasSuffix(fieldKey(fa), "Options.Unsorted") {
 							continue
 						}
@@ -477,20 +491,26 @@ func (p *Prog) hardlinkMarkerRule(r *Report, rule string) {
 		if !ok || !isNilConst(mu.Value) || newPath == nil || !derivesFromValue(mu.Key, newPath) {
 			return
 		}
-		absent, isCopy := false, false
+		absent, isCopy, extra := false, false, false
 		for _, f := range factsAt(mu) {
-			if e, ok := f.V.(*ssa.Extract); ok && e.Index == 1 && !f.Val {
-				absent = true
+			if e, ok := f.V.(*ssa.Extract); ok && e.Index == 1 {
+				// which lookup? the one keyed by the old path establishes "source hash unknown"; any other presence
+				// test (e.g. on the new path) makes the marker conditional on what was remembered before
+				if lk, ok := e.Tuple.(*ssa.Lookup); ok && derivesFromValue(lk.Index, newPath) {
+					extra = true
+				} else if !f.Val {
+					absent = true
+				}
 			}
 			if f.V == ssa.Value(copyPrm) && f.Val {
 				isCopy = true
 			}
 		}
-		if absent && isCopy {
+		if absent && isCopy && !extra {
 			marked = true
 		}
 	})
-	r.check(marked, rule, "CopyHash of an unknown hash marks the new path", p.pos(mc.Pos()), fnName(mc), "memo[newPath] = nil on the (source hash absent, copy) branch", "copying the hash of a path that has not been hashed no longer leaves the nil marker for the new path: the next Hash(store=true) of a filegroup output records its hash in an xattr on the inode it shares with the source file, and after an in-place edit of the source that stale record is trusted (a stale test result or output is reused)")
+	r.check(marked, rule, "CopyHash of an unknown hash marks the new path", p.pos(mc.Pos()), fnName(mc), "memo[newPath] = nil on the (source hash absent, copy) branch, whatever was remembered for the new path", "copying the hash of a path that has not been hashed no longer leaves the nil marker for the new path (or only when nothing was remembered for it, so a destination that was hashed and then overwritten keeps its old hash): the next Hash(store=true) of a filegroup output records its hash in an xattr on the inode it shares with the source file, and after an in-place edit of the source that stale record is trusted (a stale test result or output is reused)")
 	// reader: on present && cached == nil the call to hash() gets store=false and read=false
 	honoured := false
 	for _, ci := range callsInFn(Hash, hash) {
@@ -524,4 +544,45 @@ func (p *Prog) hardlinkMarkerRule(r *Report, rule string) {
 		}
 	}
 	r.check(honoured, rule, "Hash never stores an xattr for a marked path", p.pos(Hash.Pos()), fnName(Hash), "store is forced to false on the present-but-nil branch before hash() is called", "Hash no longer treats a present-but-nil memo entry as 'do not read or store xattrs': the marker left by CopyHash has no effect")
+}
+
+// memoEveryHashRule: within one invocation a path has one hash: Hash remembers every hash it computed successfully,
+// for any path. (The build hashes a target's sources before the action and again afterwards to record them; if the
+// second call reads the file again, a source saved while the action ran is recorded with a hash the outputs were
+// not built from.)
+func (p *Prog) memoEveryHashRule(r *Report, rule string) {
+	Hash := p.Fn("fs", "PathHasher.Hash")
+	hash := p.Fn("fs", "PathHasher.hash")
+	if Hash == nil || hash == nil {
+		r.unresolved(rule, "fs.PathHasher.Hash / hash")
+		return
+	}
+	n, bad := 0, ""
+	for _, ci := range callsInFn(Hash, hash) {
+		c, ok := ci.(*ssa.Call)
+		if !ok {
+			continue
+		}
+		eachInstr(Hash, false, func(_ *ssa.Function, i ssa.Instruction) {
+			mu, ok := i.(*ssa.MapUpdate)
+			if !ok || !tagsOf(mu.Map, SliceOpts{})["fs.PathHasher.memo"] || !derivesFromValue(mu.Value, c) {
+				return
+			}
+			n++
+			for _, f := range factsAt(mu) {
+				if !instrDominates(c, mu) {
+					continue
+				}
+				// only facts established after the hash call matter
+				if fi, ok := f.V.(ssa.Instruction); ok && !instrDominates(c, fi) {
+					continue
+				}
+				if k, isNil := errKnown([]Fact{f}, resultsOf(c, 1)); k && isNil {
+					continue
+				}
+				bad = f.V.String()
+			}
+		})
+	}
+	r.check(n > 0 && bad == "", rule, "Hash remembers every hash it computed", p.pos(Hash.Pos()), fnName(Hash), "memo[path] = result under err == nil and nothing else", "Hash memoises the computed hash only under an extra condition ("+bad+", e.g. only for paths under plz-out): a source file is then read again when its hash is recorded after the build, so a file saved while the action ran is recorded as what the outputs were built from, and every later build skips the target")
 }
